@@ -1,8 +1,7 @@
-"""Process stub: run ``jsonpath.cli.main()`` in-process behind a simulated
-process boundary (argv, std streams, exit status, file system)."""
+"""Process stub: run ``python -m jsonpath`` in-process behind a simulated process boundary
+(argv, std streams, exit status, working directory)."""
 from __future__ import annotations
 
-import argparse
 import io
 import os
 import shutil
@@ -18,8 +17,6 @@ from typing import Optional
 from .fs import SimFS
 
 
-SIM_NAMES = ("doc.json", "patch.json", "expr.txt", "out.json")
-
 
 class ProcResult:
     __slots__ = ("status", "stdout", "stderr", "escaped")
@@ -32,40 +29,77 @@ class ProcResult:
 
 
 class _Named(io.BytesIO):
-    """The byte buffer behind a standard stream; like the interpreter's, it has a name."""
+    """The byte buffer behind a standard stream: it has a name, like the interpreter's, and what was
+    written to it can still be read after the program closed the stream."""
 
     def __init__(self, data: bytes = b"", name: str = "") -> None:
         super().__init__(data)
         self.name = name
+        self._final: Optional[bytes] = None
+
+    def close(self) -> None:
+        if not self.closed:
+            self._final = self.getvalue()
+        super().close()
+
+    def value(self) -> bytes:
+        return self._final if self.closed and self._final is not None else self.getvalue()
+
+
+_DIR: List[str] = []  # "<pid>|<scratch directory>" of this process
+
+
+def _scratch_dir() -> str:
+    """The simulated process's working directory: one scratch directory per harness process, emptied before
+    every invocation, removed at exit (forked workers run their exit handlers, see runner._exit_child)."""
+    import atexit
+
+    if not _DIR or _DIR[0].split("|")[0] != str(os.getpid()):
+        d = tempfile.mkdtemp(prefix="jpsim-cwd-", dir=os.environ.get("TMPDIR") or tempfile.gettempdir())
+        _DIR[:] = [f"{os.getpid()}|{d}"]
+        atexit.register(shutil.rmtree, d, True)
+    d = _DIR[0].split("|", 1)[1]
+    for name in os.listdir(d):
+        path = os.path.join(d, name)
+        if os.path.isdir(path) and not os.path.islink(path):
+            shutil.rmtree(path, ignore_errors=True)
+        else:
+            os.unlink(path)
+    return d
 
 
 def run_cli(argv: List[str], stdin_bytes: bytes, fs: SimFS) -> ProcResult:
-    """One simulated ``python -m jsonpath <argv>`` invocation.
+    """One simulated process: ``python -m jsonpath <argv>``.
 
-    The package's ``__main__`` module is executed the way ``python -m`` would (``runpy``), so the stub does
-    not depend on *how* the entry point turns its outcome into an exit status (``sys.exit(1)`` inside a
-    handler, or ``sys.exit(main())`` at the top).  Files are reachable through ``argparse.FileType`` and
-    through ``open`` / ``io.open`` alike: names that exist in (or are created in) the simulated file
-    system are routed there, everything else goes to the real one."""
-    import builtins
+    The program is what the real command runs -- ``jsonpath/__main__.py`` executed as ``__main__`` -- with a
+    process of its own as far as it can tell: `sys.argv`, the three standard streams (named, with `.buffer`,
+    closable), a working directory that holds exactly the files of *fs* (as real files, so `open`, `pathlib`,
+    `os.path.exists`, `os.replace` ... all see the same thing), freshly imported `jsonpath.cli` /
+    `jsonpath.__main__` modules and no logging handlers left over from an earlier invocation.  Afterwards
+    the directory's files are read back into *fs*."""
+    import gc
+    import logging
     import runpy
+    import warnings
 
+    from .core import HarnessError
+
+    d = _scratch_dir()
+    for name, data in fs.files.items():
+        with open(os.path.join(d, name), "wb") as f:
+            f.write(data)
     saved = (sys.argv, sys.stdin, sys.stdout, sys.stderr)
-    real_open, real_io_open = builtins.open, io.open
-
-    def routed_open(file: Any, mode: str = "r", *a: Any, **k: Any) -> Any:
-        name = file if isinstance(file, str) else (os.fspath(file) if hasattr(file, "__fspath__") else None)
-        if isinstance(name, str):
-            base = os.path.basename(name)
-            if name in fs.files or base in fs.files or base in SIM_NAMES:
-                return fs.open(base if base in fs.files or base in SIM_NAMES else name, mode, *a, **k)
-        return real_open(file, mode, *a, **k)
-
-    had_open = "open" in argparse.__dict__
-    old_open = argparse.__dict__.get("open")
+    cwd = os.getcwd()
+    for mod in ("jsonpath.cli", "jsonpath.__main__"):
+        sys.modules.pop(mod, None)
+    saved_log = (logging.root.handlers[:], logging.root.level, logging.root.disabled)
+    logging.root.handlers = []
+    logging.root.setLevel(logging.WARNING)
+    saved_warn = warnings.filters[:]
     out_b = _Named(name="<stdout>")
-    err_s = io.StringIO()
+    err_b = _Named(name="<stderr>")
     stdout = io.TextIOWrapper(out_b, encoding="utf-8", errors="strict", write_through=True)
+    stderr = io.TextIOWrapper(err_b, encoding="utf-8", errors="backslashreplace", write_through=True)
     escaped: Optional[str] = None
     status = 0
     try:
@@ -73,10 +107,8 @@ def run_cli(argv: List[str], stdin_bytes: bytes, fs: SimFS) -> ProcResult:
         # like the interpreter on POSIX: no newline translation on stdin
         sys.stdin = io.TextIOWrapper(_Named(stdin_bytes, name="<stdin>"), encoding="utf-8", errors="strict", newline="\n")
         sys.stdout = stdout
-        sys.stderr = err_s
-        argparse.open = fs.open  # type: ignore[attr-defined]
-        builtins.open = routed_open  # type: ignore[assignment]
-        io.open = routed_open  # type: ignore[assignment]
+        sys.stderr = stderr
+        os.chdir(d)
         try:
             runpy.run_module("jsonpath.__main__", run_name="__main__")
         except SystemExit as e:
@@ -86,29 +118,54 @@ def run_cli(argv: List[str], stdin_bytes: bytes, fs: SimFS) -> ProcResult:
             elif isinstance(code, int):
                 status = code
             else:
-                err_s.write(str(code) + "\n")
+                _write(stderr, str(code) + "\n")
                 status = 1
-        except BaseException as e:  # noqa: BLE001
+            traceback.clear_frames(e.__traceback__)
+        except HarnessError:
+            raise
+        except Exception as e:  # noqa: BLE001
             # what the interpreter does with an uncaught exception
             escaped = type(e).__name__
-            traceback.print_exception(type(e), e, e.__traceback__, file=err_s)
-            status = 1
-        try:
-            stdout.flush()
-        except Exception:  # noqa: BLE001
-            status = 120
-    finally:
-        sys.argv, sys.stdin, sys.stdout, sys.stderr = saved
-        builtins.open = real_open
-        io.open = real_io_open
-        if had_open:
-            argparse.open = old_open  # type: ignore[attr-defined]
-        else:
             try:
-                del argparse.open  # type: ignore[attr-defined]
-            except AttributeError:
+                traceback.print_exception(type(e), e, e.__traceback__, file=stderr)
+            except ValueError:  # the program closed stderr
                 pass
-    return ProcResult(status, out_b.getvalue(), err_s.getvalue(), escaped)
+            traceback.clear_frames(e.__traceback__)
+            status = 1
+        # interpreter shutdown flushes the standard streams; a stream the program closed itself is left alone
+        for stream in (stdout, stderr):
+            try:
+                if not stream.closed:
+                    stream.flush()
+            except Exception:  # noqa: BLE001
+                status = 120
+    finally:
+        os.chdir(cwd)
+        sys.argv, sys.stdin, sys.stdout, sys.stderr = saved
+        for h in logging.root.handlers:
+            try:
+                h.close()
+            except Exception:  # noqa: BLE001
+                pass
+        logging.root.handlers, logging.root.level, logging.root.disabled = saved_log[0], saved_log[1], saved_log[2]
+        warnings.filters[:] = saved_warn
+    # files the program left open are flushed when the process ends: here, when their last reference goes
+    names = sorted(os.listdir(d))
+    if any(os.path.isfile(os.path.join(d, n)) and os.path.getsize(os.path.join(d, n)) == 0 for n in names):
+        gc.collect()
+    for name in names:
+        path = os.path.join(d, name)
+        if os.path.isfile(path):
+            with open(path, "rb") as f:
+                fs.files[name] = f.read()
+    return ProcResult(status, out_b.value(), err_b.value().decode("utf-8", "replace"), escaped)
+
+
+def _write(stream: Any, text: str) -> None:
+    try:
+        stream.write(text)
+    except ValueError:
+        pass
 
 
 def run_cli_subprocess(
